@@ -13,6 +13,8 @@ import (
 	"unsafe"
 
 	sio "github.com/karagenc/socket.io-go"
+	eio "github.com/karagenc/socket.io-go/engine.io"
+	eioparser "github.com/karagenc/socket.io-go/engine.io/parser"
 	vx "github.com/karagenc/socket.io-go/internal/vexplore"
 	"github.com/karagenc/socket.io-go/internal/vrig"
 	"github.com/karagenc/socket.io-go/internal/vsched"
@@ -769,6 +771,71 @@ func concEventScenario(name string, fires int, withOff bool) *vx.Scenario {
 	return sc
 }
 
+// clientSocketOccurrences: the handlers of a ClientSocket, with occurrences that arrive BEFORE the CONNECT reply
+// (the client keeps them in its receive buffer, one entry per handler, and runs them once it is connected) and
+// after it, with and without an ack id, against a raw Socket.IO endpoint (the repo's eio.Server driven by the
+// harness). Two On handlers and one Once handler on the event: every On handler runs for every occurrence, the
+// Once handler for exactly the first.
+func clientSocketOccurrences(name string, early []string, late []string, bound int) *vx.Scenario {
+	sc := &vx.Scenario{Name: name, Bound: bound, Horizon: 20 * time.Second}
+	sc.Body = func(e *vsched.Exec) func() vx.Result {
+		var v vsched.Var
+		var ssock eio.ServerSocket
+		gotConnect := false
+		es := eio.NewServer(func(s eio.ServerSocket) *eio.Callbacks {
+			v.Do(func() { ssock = s })
+			return &eio.Callbacks{OnPacket: func(ps ...*eioparser.Packet) {
+				for _, p := range ps {
+					if p.Type == eioparser.PacketTypeMessage && strings.HasPrefix(string(p.Data), "0") {
+						v.Do(func() { gotConnect = true })
+					}
+				}
+			}}
+		}, &eio.ServerConfig{})
+		link := &vrig.Inproc{H: es}
+		mcfg := &sio.ManagerConfig{NoReconnection: true}
+		mcfg.EIO.Transports = []string{"polling"}
+		mcfg.EIO.HTTPTransport = link
+		mgr := sio.NewManager("http://inproc/socket.io/", mcfg)
+		counts := [3]int{}
+		sock := mgr.Socket("/", nil)
+		sock.OnEvent("e", func() { v.Do(func() { counts[0]++ }) })
+		sock.OnEvent("e", func() { v.Do(func() { counts[1]++ }) })
+		sock.OnceEvent("e", func() { v.Do(func() { counts[2]++ }) })
+		connected := false
+		sock.OnConnect(func() { v.Do(func() { connected = true }) })
+		sock.Connect()
+		vsched.GoQuiet("raw-server", func() {
+			vsched.Await(func() bool { return gotConnect && ssock != nil })
+			for _, fr := range early {
+				ssock.Send(vrig.Msg(fr))
+			}
+			ssock.Send(vrig.Msg(`0{"sid":"sid0"}`))
+			vsched.Await(func() bool { return connected })
+			for _, fr := range late {
+				ssock.Send(vrig.Msg(fr))
+			}
+		})
+		return func() vx.Result {
+			var r vx.Result
+			n := len(early) + len(late)
+			r.Outcome = fmt.Sprint(counts)
+			ctx := fmt.Sprintf("the endpoint sent %q before its CONNECT reply and %q after it; the two On handlers of 'e' ran %d and %d times, the Once handler %d time(s)", early, late, counts[0], counts[1], counts[2])
+			if counts[0] != n || counts[1] != n {
+				r.Violate("ClientSocket.Event: an On handler did not run once for every occurrence (occurrences buffered until the socket is connected included)", "%s", ctx)
+			}
+			if counts[2] > 1 {
+				r.Violate("ClientSocket.Event: Once handler ran more than once", "%s", ctx)
+			}
+			if counts[2] < 1 && n > 0 {
+				r.Violate("ClientSocket.Event: Once handler did not run for the first occurrence", "%s", ctx)
+			}
+			return r
+		}
+	}
+	return sc
+}
+
 func scenarios(tier string) []*vx.Scenario {
 	s := []*vx.Scenario{
 		concScenario("handlerStore/2fires", 2, false, false),
@@ -783,6 +850,11 @@ func scenarios(tier string) []*vx.Scenario {
 			s = append(s, concOverlapScenario(fmt.Sprintf("handlerStore/overlapping-occurrences/%d-on-handlers/late-%s", nOn, late), nOn, late))
 		}
 	}
+	s = append(s,
+		clientSocketOccurrences("ClientSocket/occurrences-after-connect", nil, []string{`2["e"]`, `25["e"]`}, 1),
+		clientSocketOccurrences("ClientSocket/occurrence-buffered-before-the-CONNECT-reply", []string{`2["e"]`}, []string{`2["e"]`}, 1),
+		clientSocketOccurrences("ClientSocket/occurrence-with-ack-id-buffered-before-the-CONNECT-reply", []string{`27["e"]`}, []string{`2["e"]`}, 1),
+		clientSocketOccurrences("ClientSocket/two-buffered-occurrences-with-and-without-ack-id", []string{`27["e"]`, `2["e"]`}, []string{`28["e"]`}, 1))
 	if tier == "thorough" {
 		s = append(s, concScenario("handlerStore/3fires-off-on", 3, true, true))
 	}
@@ -794,7 +866,7 @@ func main() {
 		Property: "C18",
 		Level:    "model_checking",
 		Rule: "explicit-state BFS: every history of On/Once/Off(0..3 handlers, incl. duplicates; for the event families also Off naming a never-registered function, a nil function value, untyped nil or a non-function, alone and next to a real handler)/OffAll/fire over 3 handlers x 1-2 events (one name a prefix of the other) up to the depth shown per family, " +
-			"each replayed on a fresh real registry / public wrapper and compared step by step with a reference list model; plus all interleavings of racing occurrences with Off/On. " +
+			"each replayed on a fresh real registry / public wrapper and compared step by step with a reference list model; plus all interleavings of racing occurrences with Off/On, overlapping occurrences with a late registration, and a ClientSocket's handlers with occurrences buffered before the CONNECT reply (raw endpoint). " +
 			"distinct_nontrivial counts distinct histories of length >= 2 (BFS) and deviating schedules (concurrent part)",
 		Scenarios: scenarios,
 		Budget: func(tier string) time.Duration {
